@@ -23,22 +23,18 @@ Qed.
 Lemma accept1_st_outside PDF lo hi x y (s : st) a s' : y < lo \/ hi < y ->
   accept1_st ROps PDF (Some (lo, hi)) x y s = Ok (a, s') -> a = 0 /\ s' = s.
 Proof.
-  intros Hy. unfold accept1_st, ngtb. cbn [nltb ROps n0].
-  destruct (Rltb_spec y lo), (Rltb_spec hi y); simpl orb; cbv iota; try (intros H; inversion H; now split); lra.
+  intros Hy. unfold accept1_st, inside1, ngtb. cbn [nltb ROps n0].
+  destruct (Rltb_spec y lo), (Rltb_spec hi y); simpl orb; simpl negb; cbv iota; try (intros H; inversion H; now split); lra.
 Qed.
 
 Lemma accept1_st_ok PDF dom x y (s : st) a s' : keeps_stream PDF ->
   accept1_st ROps PDF dom x y s = Ok (a, s') -> stream_ok s -> stream_ok s'.
 Proof.
-  intros HP. unfold accept1_st.
-  assert (G : rbind (PDF y s) (fun fc => rbind (PDF x (snd fc)) (fun fx =>
-                Ok (nmin ROps (n1 ROps) (ndiv ROps (fst fc) (fst fx)), snd fx))) = Ok (a, s') -> stream_ok s -> stream_ok s').
-  { destruct (PDF y s) as [[fc s1]| | |] eqn:E1; try discriminate; cbn [rbind fst snd].
+  intros HP. unfold accept1_st. destruct (inside1 ROps dom y).
+  - destruct (PDF y s) as [[fc s1]| | |] eqn:E1; try discriminate; cbn [rbind fst snd].
     destruct (PDF x s1) as [[fx s2]| | |] eqn:E2; try discriminate; cbn [rbind fst snd].
-    intros H Hs; inversion H; subst. eapply HP; [exact E2|]. eapply HP; [exact E1|exact Hs]. }
-  destruct dom as [[lo hi]|]; [|exact G].
-  destruct (nltb ROps y lo || ngtb ROps y hi); [|exact G].
-  intros H Hs; inversion H; subst; exact Hs.
+    intros H Hs; inversion H; subst. eapply HP; [exact E2|]. eapply HP; [exact E1|exact Hs].
+  - intros H Hs; inversion H; subst; exact Hs.
 Qed.
 
 Lemma metro_loop_st_in_domain PDF sigma lo hi burn thin imax fuel : keeps_stream PDF ->
